@@ -5,6 +5,7 @@ import BigDec.Proofs.FmtExp
 import BigDec.Proofs.Flags
 import BigDec.Props.C04
 import BigDec.Props.C06
+import BigDec.Proofs.FmtExpDigits
 /-! # C16 — precision formatting rounds correctly; flags never alter the digits
 
 The formatter has its *own* rounding over ASCII digits (`round_ascii_digits`: digit pair through
@@ -75,6 +76,24 @@ theorem C16_exp_precision (cfg : Config) (d : Dec) (N : Nat)
       r.value = (Spec.roundToPrec d (N + 1) cfg.mode).value) := by
   rw [C05_parse_eq_spec, C05_parse_eq_spec]
   exact ⟨lowerExp_prec_parse cfg d N 'e' (Or.inl rfl) hsc hlen hN, lowerExp_prec_parse cfg d N 'E' (Or.inr rfl) hsc hlen hN⟩
+
+/-- **`{:.Ne}` / `{:.NE}` print exactly `N+1` significant digits**: after the sign, one digit, then
+    (when `N > 0`) a point followed by exactly `N` digits - rounded digits, or the number's own digits
+    padded with zeros when it has fewer - then the exponent marker and a signed exponent.  Together
+    with `C16_exp_precision` (the value of this text) this is the whole `{:.Ne}` clause. -/
+theorem C16_exp_digit_count (cfg : Config) (d : Dec) (N : Nat) (eSym : Char) :
+    ∃ (c0 : Char) (frac : List Char) (e : Int),
+      lowerExp cfg {precision := some N} d eSym =
+        (if d.int < 0 then ['-'] else []) ++ ([c0] ++ (if N = 0 then [] else '.' :: frac) ++ [eSym] ++ intStrPlus e) ∧
+      frac.length = N ∧ IsDigitChar c0 ∧ ∀ c ∈ frac, IsDigitChar c := by
+  obtain ⟨c0, frac, e, h, h1, h2, h3⟩ :=
+    exponentialText_shape cfg (decide (d.int < 0)) d.int.natAbs d.scale N eSym
+  refine ⟨c0, frac, e, ?_, h1, h2, h3⟩
+  unfold lowerExp
+  simp only
+  rw [h]
+  unfold padIntegral
+  by_cases hneg : d.int < 0 <;> simp [hneg]
 
 /-- **flags never alter the digits.**  For every combination of width, fill, alignment, `0` and `+`,
     the text of `Display` is the numeral printed without them (`body`, after its own sign), preceded by
